@@ -33,6 +33,7 @@ Open Scope N_scope.
 (** * "lint reports every malformed line once, in file order, with the same messages" *)
 Theorem lint_reports_all : forall (NM : Num) (w : world) (file data : bytes) (silent : bool),
   file <> [] ->
+  file <> dev_null ->
   lookup file (w_fs w) = Some (FFile data) ->
   lookup file (w_read_fault w) = None ->
   w_sink w = None ->
@@ -48,6 +49,7 @@ Print Assumptions lint_reports_all.
 (** * "and prints 'No errors found' exactly when the file has none" *)
 Theorem lint_ok_iff_clean : forall (NM : Num) (w : world) (file data : bytes) (silent : bool),
   file <> [] ->
+  file <> dev_null ->
   lookup file (w_fs w) = Some (FFile data) ->
   lookup file (w_read_fault w) = None ->
   w_sink w = None ->
@@ -67,6 +69,7 @@ Print Assumptions lint_ok_iff_clean.
     contains an LF), then the "No errors found" line if applicable; [[]] is what follows the last LF *)
 Theorem lint_output_lines : forall (NM : Num) (w : world) (file data : bytes) (silent : bool),
   file <> [] ->
+  file <> dev_null ->
   lookup file (w_fs w) = Some (FFile data) ->
   lookup file (w_read_fault w) = None ->
   w_sink w = None ->
@@ -86,6 +89,7 @@ Print Assumptions perr_line_not_no_errors.
 (** a line too long for the scanner: the errors before it are printed, the status is "token too long" *)
 Theorem lint_unreadable : forall (NM : Num) (w : world) (file data : bytes) (silent : bool),
   file <> [] ->
+  file <> dev_null ->
   lookup file (w_fs w) = Some (FFile data) ->
   lookup file (w_read_fault w) = None ->
   w_sink w = None ->
@@ -112,6 +116,7 @@ Theorem first_error_reported_book_reg_bal_totals_unresolved :
   load w i = inr op ->
   In (i_cmd i) [CReg; CBal; CTotals; CUnresolved] ->
   op_db op <> [] ->
+  op_db op <> dev_null ->
   lookup (op_db op) (w_fs w) = Some (FFile data) ->
   lookup (op_db op) (w_read_fault w) = None ->
   open_file w (op_log op) <> None ->
@@ -128,6 +133,7 @@ Theorem first_error_reported_book_summary :
   i_cmd i = CSummary arg ->
   time_from_string w (op_now op) (rc_date (op_rc op)) arg = inr t ->
   op_db op <> [] ->
+  op_db op <> dev_null ->
   lookup (op_db op) (w_fs w) = Some (FFile data) ->
   lookup (op_db op) (w_read_fault w) = None ->
   open_file w (op_log op) <> None ->
@@ -142,6 +148,7 @@ Theorem first_error_reported_book_element_total :
   load w i = inr op ->
   i_cmd i = CElementTotal x -> x <> [] ->
   op_db op <> [] ->
+  op_db op <> dev_null ->
   lookup (op_db op) (w_fs w) = Some (FFile data) ->
   lookup (op_db op) (w_read_fault w) = None ->
   errors_of NM (events NM data) = e :: es ->
@@ -155,6 +162,7 @@ Theorem first_error_reported_book_csv_db_resolved :
   load w i = inr op ->
   i_cmd i = CCsvDbResolved ->
   op_db op <> [] ->
+  op_db op <> dev_null ->
   lookup (op_db op) (w_fs w) = Some (FFile data) ->
   lookup (op_db op) (w_read_fault w) = None ->
   errors_of NM (events NM data) = e :: es ->
@@ -169,6 +177,7 @@ Theorem first_error_reported_book_csv_db :
   load w i = inr op ->
   i_cmd i = CCsvDb ->
   op_db op <> [] ->
+  op_db op <> dev_null ->
   lookup (op_db op) (w_fs w) = Some (FFile data) ->
   lookup (op_db op) (w_read_fault w) = None ->
   w_sink w = None ->
@@ -178,16 +187,20 @@ Theorem first_error_reported_book_csv_db :
 Proof. exact MalformedRun.run_book_error_csv_db. Qed.
 Print Assumptions first_error_reported_book_csv_db.
 
-(** stats: reads the log first (which must itself be fine), then the book *)
+(** stats: reads the log first (which must itself be fine: no malformed line, every heading a date -- fix F27),
+    then the book *)
 Theorem first_error_reported_book_stats :
   forall (NM : Num) (w : world) (i : invocation) (op : options) (ldata data : bytes) (e : perr) (es : list perr),
   load w i = inr op ->
   i_cmd i = CStats ->
   op_log op <> [] ->
+  op_log op <> dev_null ->
   lookup (op_log op) (w_fs w) = Some (FFile ldata) ->
   lookup (op_log op) (w_read_fault w) = None ->
   errors_of NM (events NM ldata) = [] -> readable ldata ->
+  Forall (fun n => parse_date (rc_date (op_rc op)) (header n) <> None) (nodes_of NM (events NM ldata)) ->
   op_db op <> [] ->
+  op_db op <> dev_null ->
   lookup (op_db op) (w_fs w) = Some (FFile data) ->
   lookup (op_db op) (w_read_fault w) = None ->
   errors_of NM (events NM data) = e :: es ->
@@ -206,6 +219,7 @@ Theorem first_error_reported_log :
   resolved_db NM w op odb = inr d ->
   tokenize (op_fmt op) = Some toks ->
   op_log op <> [] ->
+  op_log op <> dev_null ->
   lookup (op_log op) (w_fs w) = Some (FFile data) ->
   lookup (op_log op) (w_read_fault w) = None ->
   w_sink w = None ->
@@ -237,6 +251,7 @@ Theorem first_error_reported_log_reg_bal_totals_unresolved :
   open_file w (op_db op) = Some odb ->
   resolved_db NM w op odb = inr d ->
   op_log op <> [] ->
+  op_log op <> dev_null ->
   lookup (op_log op) (w_fs w) = Some (FFile data) ->
   lookup (op_log op) (w_read_fault w) = None ->
   w_sink w = None ->
@@ -257,6 +272,7 @@ Theorem first_error_reported_log_summary :
   open_file w (op_db op) = Some odb ->
   resolved_db NM w op odb = inr d ->
   op_log op <> [] ->
+  op_log op <> dev_null ->
   lookup (op_log op) (w_fs w) = Some (FFile data) ->
   lookup (op_log op) (w_read_fault w) = None ->
   w_sink w = None ->
@@ -274,6 +290,7 @@ Theorem first_error_reported_log_quantity_csv_print :
   load w i = inr op ->
   In (i_cmd i) [CQuantity; CCsvLog; CPrint] ->
   op_log op <> [] ->
+  op_log op <> dev_null ->
   lookup (op_log op) (w_fs w) = Some (FFile data) ->
   lookup (op_log op) (w_read_fault w) = None ->
   w_sink w = None ->
@@ -284,15 +301,19 @@ Theorem first_error_reported_log_quantity_csv_print :
 Proof. exact MalformedRun.run_log_error_log_only. Qed.
 Print Assumptions first_error_reported_log_quantity_csv_print.
 
-(** stats *)
+(** stats (since fix F27 the headings before the malformed line must be dates, as for every other command) *)
 Theorem first_error_reported_log_stats :
-  forall (NM : Num) (w : world) (i : invocation) (op : options) (data : bytes) (e : perr) (es : list perr),
+  forall (NM : Num) (w : world) (i : invocation) (op : options) (data : bytes) (pre : list (event NM)) (e : perr)
+         (post : list (event NM)),
   load w i = inr op ->
   i_cmd i = CStats ->
   op_log op <> [] ->
+  op_log op <> dev_null ->
   lookup (op_log op) (w_fs w) = Some (FFile data) ->
   lookup (op_log op) (w_read_fault w) = None ->
-  errors_of NM (events NM data) = e :: es ->
+  events NM data = pre ++ EErr e :: post ->
+  errors_of NM pre = [] ->
+  Forall (fun n => parse_date (rc_date (op_rc op)) (header n) <> None) (nodes_of NM pre) ->
   run NM w i = {| out_stdout := []; out_status := Failed (EParse (perr_message e)) |}.
 Proof. exact MalformedRun.run_log_error_stats. Qed.
 Print Assumptions first_error_reported_log_stats.
@@ -303,6 +324,7 @@ Theorem bad_date_reported_first :
          (pre : list (event NM)) (n : pnode NM) (post : list (event NM)),
   tokenize (op_fmt op) = Some toks ->
   op_log op <> [] ->
+  op_log op <> dev_null ->
   lookup (op_log op) (w_fs w) = Some (FFile data) ->
   lookup (op_log op) (w_read_fault w) = None ->
   w_sink w = None ->
@@ -314,6 +336,26 @@ Theorem bad_date_reported_first :
   out_status (run_log NM w op R) = Failed EBadDate.
 Proof. exact MalformedLog.run_log_bad_date_first. Qed.
 Print Assumptions bad_date_reported_first.
+
+(** ... for stats too (fix F27: before, stats counted such a heading and showed it as the zero time):
+    the run fails with the date error and prints nothing *)
+Theorem bad_date_reported_first_stats :
+  forall (NM : Num) (w : world) (i : invocation) (op : options) (data : bytes)
+         (pre : list (event NM)) (n : pnode NM) (post : list (event NM)),
+  load w i = inr op ->
+  i_cmd i = CStats ->
+  op_log op <> [] ->
+  op_log op <> dev_null ->
+  lookup (op_log op) (w_fs w) = Some (FFile data) ->
+  lookup (op_log op) (w_read_fault w) = None ->
+  events NM data = pre ++ ENode n :: post ->
+  errors_of NM pre = [] ->
+  Forall (fun m => parse_date (rc_date (op_rc op)) (header m) <> None) (nodes_of NM pre) ->
+  parse_date (rc_date (op_rc op)) (header n) = None ->
+  post <> [] \/ readable data ->
+  run NM w i = {| out_stdout := []; out_status := Failed EBadDate |}.
+Proof. exact MalformedRun.run_bad_date_stats. Qed.
+Print Assumptions bad_date_reported_first_stats.
 
 (** * "the first malformed line" is well defined: the splitting used above exists and is unique *)
 Theorem first_error_is_first : forall (NM : Num) (evs : list (event NM)) (e : perr) (es : list perr),
@@ -335,6 +377,7 @@ Theorem lint_on_rendered :
   forall (w : world) (file : bytes) (f : Syntax.file) (silent : bool),
   wf_file NM f = true -> short_lines f -> readable (render f) ->
   file <> [] ->
+  file <> dev_null ->
   lookup file (w_fs w) = Some (FFile (render f)) ->
   lookup file (w_read_fault w) = None ->
   w_sink w = None ->
